@@ -955,13 +955,49 @@ namespace bloch::runtime {
             rc->isAbstract = clsNode->isAbstract;
             m_classTable[rc->name] = rc;
         }
-        // populate members
+        // populate members, base classes first: a class copies its base's field layout and
+        // vtable, so the base has to be complete whatever the order of declaration in the file
+        std::unordered_map<std::string, compiler::ClassDeclaration*> declByName;
         for (auto& clsNode : program.classes) {
+            if (clsNode && clsNode->typeParameters.empty())
+                declByName.emplace(clsNode->name, clsNode.get());
+        }
+        std::unordered_set<std::string> populated;
+        std::function<void(compiler::ClassDeclaration*)> populate =
+            [&](compiler::ClassDeclaration* clsNode) {
             if (!clsNode || !clsNode->typeParameters.empty())
-                continue;  // generic templates handled lazily
+                return;  // generic templates handled lazily
+            if (!populated.insert(clsNode->name).second)
+                return;
             RuntimeClass* rc = findClass(clsNode->name);
             if (!rc)
-                continue;
+                return;
+            auto populateByName = [&](const std::string& baseName) {
+                auto it = declByName.find(baseName);
+                if (it != declByName.end())
+                    populate(it->second);
+            };
+            if (clsNode->baseType) {
+                if (auto named = dynamic_cast<NamedType*>(clsNode->baseType.get())) {
+                    if (!named->nameParts.empty()) {
+                        populateByName(named->nameParts.back());
+                        // a generic base is instantiated below; its template's own base must be
+                        // complete by then
+                        auto tmplIt = m_genericTemplates.find(named->nameParts.back());
+                        if (tmplIt != m_genericTemplates.end() && tmplIt->second) {
+                            auto* tmpl = tmplIt->second;
+                            if (auto tb = dynamic_cast<NamedType*>(tmpl->baseType.get())) {
+                                if (!tb->nameParts.empty())
+                                    populateByName(tb->nameParts.back());
+                            } else if (!tmpl->baseName.empty()) {
+                                populateByName(tmpl->baseName.back());
+                            }
+                        }
+                    }
+                }
+            } else if (!clsNode->baseName.empty()) {
+                populateByName(clsNode->baseName.back());
+            }
             // Wire base (non-generic class)
             if (clsNode->baseType) {
                 if (auto named = dynamic_cast<NamedType*>(clsNode->baseType.get())) {
@@ -1051,7 +1087,8 @@ namespace bloch::runtime {
             }
             if (rc->staticStorage.size() < rc->staticFields.size())
                 rc->staticStorage.resize(rc->staticFields.size());
-        }
+        };
+        for (auto& clsNode : program.classes) populate(clsNode.get());
     }
 
     RuntimeClass* RuntimeEvaluator::instantiateGeneric(
